@@ -19,6 +19,7 @@ type StringV struct {
 	B      []*Term
 	Opaque *Term   // non-nil: an opaque string identified by this id term (contents unknown)
 	HexOf  []*Term // non-nil: B is the lower-case hex encoding of these bytes (equality fast path)
+	DecOf  *Term   // non-nil: the decimal text of this Int term (contents otherwise unknown), see base58.go
 }
 
 type StructV []Value
@@ -63,6 +64,7 @@ type SliceV struct {
 	Arr           *Cell // array cell; nil for nil slice
 	Off, Len, Cap int
 	SymLen        *Term // non-nil: a slice whose only observable is its (symbolic) length
+	Dec           *Term // non-nil (with SymLen): the bytes are the decimal text of this Int term, see base58.go
 }
 
 type MapEntry struct {
